@@ -48,6 +48,8 @@ def families(tier):
         ("M-letters2", lambda: ({**c, "shift": 1} for c in enum2d.M(6)), 1),
         ("M-exotic-letters", lambda: (enum2d.exotic(c) for c in enum2d.M(7, nmin=2)), 1),
         ("many-stems", lambda: __import__("mc.props.c02", fromlist=["x"])._many_stems(tier), 1),
+        ("long-chains", lambda: __import__("mc.props.c02", fromlist=["x"])._long_chains(tier), 1),
+        ("many-groups", lambda: __import__("mc.props.c16", fromlist=["x"])._many_groups(), 1),
         ("D", lambda: enum2d.D(4 if q else 5), 1),
         ("Lad", lambda: ({**enum2d.ladder(K, gap=g), "ladder": K} for K in range(1, 32) for g in (0, 1)), 1),
         ("strings3", lambda: ({"dbn": s} for L in range(1, (8 if q else 10) + 1) for s in enum2d.balanced_strings(L, (0, 1, 2))), 1),
